@@ -346,7 +346,7 @@ def check(case, ctx):
         for a in cand:
             if a.get('href') != want:
                 if mode == 'random_labels' and kind == 'head' and heads[idx]['style'] != 'manual':
-                    # known finding (see known_findings.json): title-based cross-references keep #title under EXT_RANDOM_LABELS
+                    # (was a known finding until the repair of the title-based cross-references under EXT_RANDOM_LABELS; the signature is kept)
                     raise fail('xref:wrong-target:random-labels', 'cross-reference %r links to %r, the heading carries the random id %r' % (text, a.get('href'), want))
                 raise fail('xref:wrong-target:%s' % kind, 'cross-reference %r links to %r, the target carries %r' % (text, a.get('href'), want))
     if case['table'] and mode != 'no_labels' and 'tablabel' not in ids:
